@@ -210,7 +210,7 @@ def gen_scenario(seed, opts):
                 argv = (argv + extra_mode) if r.below(2) else (extra_mode + argv)
         nc = sum(1 for n, _ in inputs if n.endswith(".c"))
         if mode in ("c", "S", "link") and tools == "stub" and r.below(6 if mode != "S" else 3) == 0 and (nc == 1 or not use_o):
-            argv.append("-MD")            # dependency files are outputs too
+            argv.append("-MD" if r.below(4) else "-MMD")            # dependency files are outputs too
             if nc == 1 and r.below(3) == 0:
                 argv += ["-MF", "dep%d.d" % i]
             if r.below(2):
@@ -274,7 +274,7 @@ def gen_scenario(seed, opts):
         if req & seen and len(m["inputs"]) == 1 and not m["refused"] and m["mode"] in ("S", "c", "E"):
             inv["argv"] = [a for k, a in enumerate(inv["argv"]) if not (a == "-o" or a.startswith("-o") or (k > 0 and inv["argv"][k - 1] == "-o"))]
             inv["argv"] += ["-o", "own%d.%s" % (i, {"S": "s", "c": "o", "E": "i"}[m["mode"]])]
-            if "-MD" in inv["argv"] and "-MF" not in inv["argv"]:
+            if ("-MD" in inv["argv"] or "-MMD" in inv["argv"]) and "-MF" not in inv["argv"]:
                 pass  # the dependency file follows -o (own<i>.d)
             req = set(model(inv, files)["requested"])
         if req & seen:
@@ -392,7 +392,7 @@ def model(inv, files):
                 mf = argv[i + 1]
             i += 2
             continue
-        if a == "-MD":
+        if a in ("-MD", "-MMD"):
             md = True
         elif a == "-M":
             mode = "M"
@@ -917,7 +917,8 @@ class Machine:
                     pass
             self.sel.close()
             self.srv.close()
-        res = {"verdict": verdict, "status": status, "after": snapshot(self.cwd), "tmp_after": snapshot("/tmp") if self.env["private_tmp"] else {},
+        texts = {}
+        res = {"verdict": verdict, "status": status, "after": snapshot(self.cwd, texts), "after_text": texts, "tmp_after": snapshot("/tmp") if self.env["private_tmp"] else {},
                "before": self.before, "tmp_before": self.tmp_before, "inv": self.inv_state, "log": self.log, "choices": self.choices,
                "loghash": sha("\n".join(self.log)), "stderr": {}, "stdout": {}, "events": self.nevents,
                "context_switches": self.context_switches, "interleaved_with_temps": self.interleaved_with_temps, "fault_fired": list(self.fault_fired)}
@@ -946,7 +947,7 @@ def pre_exec(inv):
     return None
 
 
-def snapshot(d):
+def snapshot(d, texts=None):
     out = {}
     for root, dirs, fs in os.walk(d):
         for f in fs:
@@ -957,7 +958,10 @@ def snapshot(d):
                     out[rel] = "link:" + os.readlink(p)
                 else:
                     with open(p, "rb") as fh:
-                        out[rel] = hashlib.sha1(fh.read()).hexdigest()[:16]
+                        data = fh.read()
+                    out[rel] = hashlib.sha1(data).hexdigest()[:16]
+                    if texts is not None and rel.endswith((".d", ".dm", ".i")) and len(data) < 200000:
+                        texts[rel] = data.decode(errors="replace")
             except OSError as e:
                 out[rel] = "unreadable:%s" % e.errno
     return out
@@ -1126,6 +1130,62 @@ def expected_contents(env, wdir, scn, inv, m, cache):
     return dict((k, hashlib.sha1(v).hexdigest()[:16]) for k, v in exp.items())
 
 
+def unit_marker(scn, name):
+    kind = scn["files"].get(name)
+    ident = "".join(c for c in name if c.isalnum())
+    return {"valid": "fn_" + ident, "valid3": "fn3_" + ident, "valid2": "g_" + ident}.get(kind)
+
+
+def own_unit_check(scn, inv, m, i, res):
+    v = []
+    cs = [tu["input"] for tu in m["tus"] if tu["ext"] == ".c"]
+    if m["mode"] == "E":
+        text = res["after_text"].get(m["out"]) if m["out"] else (res["stdout"].get(i) if inv["stdout"] == "file" else None)
+        if text is not None:
+            pos = -1
+            for name in cs:
+                mk = unit_marker(scn, name)
+                if not mk:
+                    continue
+                needle = mk + ("(" if not mk.startswith("g_") else " ")
+                k = text.find(needle)
+                k2 = text.find(needle, pos + 1)
+                if k < 0:
+                    v.append(("O4-output-has-wrong-content", i, "exit 0 but the preprocessed text does not contain the text of %s" % name))
+                elif k2 < 0:
+                    v.append(("O4-output-has-wrong-content", i, "exit 0 but the preprocessed text of %s does not come after that of the inputs named before it" % name))
+                pos = max(pos, k2)
+    # dependency rules: the file written for a unit (or the rule printed for it) names that unit's source
+    rules = []
+    if m["mode"] == "M":
+        text = None
+        for o in m["requested"]:
+            text = res["after_text"].get(o)
+        if not m["requested"] and inv["stdout"] == "file":
+            text = res["stdout"].get(i)
+        if text is not None and len(cs) == 1:
+            rules.append((cs[0], text))
+    elif any(a in ("-MD", "-MMD") for a in inv["argv"]) and m["mode"] in ("S", "c", "link"):
+        mf = None
+        for k, a in enumerate(inv["argv"]):
+            if a == "-MF":
+                mf = inv["argv"][k + 1]
+        for name in cs:
+            b = os.path.basename(m["out"] or name)
+            d = mf or ((b[:b.rindex(".")] if "." in b else b) + ".d")
+            if (len(cs) == 1 or not (mf or m["out"])) and d in res["after_text"]:
+                rules.append((name, res["after_text"][d]))
+    for name, text in rules:
+        flat = text.replace("\\\n", " ")
+        if os.path.basename(name) not in flat:
+            v.append(("O4-output-has-wrong-content", i, "exit 0 but the dependency rule written for %s does not mention it: %s" % (name, flat[:200])))
+        others = [n for n in cs if os.path.basename(n) != os.path.basename(name) and os.path.basename(n) not in os.path.basename(name)]
+        for n in others:
+            if re.search(r"(^|[\s/])" + re.escape(os.path.basename(n)) + r"(\s|$)", flat):
+                v.append(("O4-output-has-wrong-content", i, "exit 0 but the dependency rule written for %s mentions %s, another unit of the command" % (name, n)))
+    return v
+
+
 def failed_steps(scn, i, st, m):
     """which pipeline steps failed, judged from what was observed and what was injected"""
     failed = []
@@ -1257,6 +1317,9 @@ def check(env, wdir, scn, res, solo, refs, which):
                     v.append(("O4-output-differs-from-lone-run", i, "exit 0 but %s differs from what the same command produces alone" % o))
             if ref and ref["status"] == 0 and ref["stdout"] is not None and res["stdout"][i] is not None and ref["stdout"] != res["stdout"][i]:
                 v.append(("O4-output-differs-from-lone-run", i, "standard output differs from the lone run"))
+            # preprocessed text and dependency rules name their own translation unit, in command-line order: a driver that is
+            # consistently wrong (units swapped, processed in another order) agrees with its own lone run
+            v += own_unit_check(scn, inv, m, i, res)
             exp = expected_contents(env, wdir, scn, inv, m, MODEL_CACHE)
             if exp:
                 for o, h in sorted(exp.items()):
